@@ -212,13 +212,13 @@ func runC13(c *hx.Ctx) {
 	// lookup 1 is parked at one of its tile reads while lookup 2, for a head on the other side of
 	// a fork (or further along the same log), runs to completion; lookup 1 then finds c.latest
 	// changed underfoot and goes through the retry branch of mergeLatestMem
-	for b := 0; b < c.N(45); b++ {
+	for b := 0; b < c.N(24); b++ {
 		sc := forkBase(r)
-		w := gen.NewSumWorld(sc.Seed, sc.NA, sc.NB, sc.K, -1)
-		k0 := 1
-		if sc.K > 1 {
-			k0 = 1 + r.Intn(sc.K)
+		for sc.K == 0 {
+			sc = forkBase(r)
 		}
+		w := gen.NewSumWorld(sc.Seed, sc.NA, sc.NB, sc.K, -1)
+		k0 := 1 + r.Intn(sc.K) // a head on the common prefix
 		first := r.Intn(2)
 		second := 1 - first
 		note := "overlap-fork"
